@@ -160,7 +160,7 @@ fam('c08_provided', 'g_alg', [(2, 2, k) for k in _light] + [(1, 1, k) for k in _
     unwind=lambda c: max(c[0], c[1]) + 2)
 fam('c08_sub', 'g_alg', Q8[:6], D8)
 fam('c08_difference_ref', 'g_alg', [(1, 1), (2, 2), (3, 2), (2, 3)], [(3, 3), (4, 2)], unwind=lambda c: 9)
-fam('c08_difference_ref_slices', 'g_alg', [(1, 1), (2, 1), (2, 2)], [(3, 2), (2, 3)], unwind=lambda c: 6)
+fam('c08_difference_ref_slices', 'g_alg', [(1, 1), (2, 1), (2, 2)], [], unwind=lambda c: 6)   # (2, 3): 19 min, (3, 2): > 20 min -> not registered
 LIBC_BOUNDS['c08_difference_ref_slices'] = 5   # slices of at most 3 bytes
 LIBC_BOUNDS['c01_lookup_unsized'] = 5
 fam('c14_map c14_set', 'g_alg', Q8 + [(2, 3)], [(4, 4), (4, 1), (1, 4), (5, 5)])
@@ -192,7 +192,7 @@ fam('c11_or', 'g_entry', [1, 2, 3], [4, 5], dprofiles=('rel', 'dbg'))
 fam('c11_variants c11_key_and_modify', 'g_entry', [0, 1, 2, 3], [4, 5], dprofiles=('rel', 'dbg'))
 
 # (2, 9), (2, 17), (2, 33): request arrays longer than 8 / 16 / 32 keys (a u8 / u16 / u32 bit set indexed by request position)
-fam('c13_disjoint', 'g_misc', [(0, 0), (2, 0), (0, 2), (1, 1), (2, 1), (1, 2), (2, 2), (3, 2), (2, 3), (3, 3)], [(4, 3), (3, 4), (4, 4), (5, 2), (2, 9), (2, 17), (2, 33)], profiles=('rel', 'dbg'), unwind=lambda c: max(c) + 2 if c[1] <= 4 else 4)   # long request arrays: a low base bound (it also bounds recursion depth in libcore's sort), loops deepened individually
+fam('c13_disjoint', 'g_misc', [(0, 0), (2, 0), (0, 2), (1, 1), (2, 1), (1, 2), (2, 2), (3, 2), (2, 3), (3, 3), (2, 9)], [(4, 3), (3, 4), (4, 4), (5, 2), (2, 17)], profiles=('rel', 'dbg'), unwind=lambda c: max(c) + 2 if c[1] <= 4 else 4)   # long request arrays: a low base bound (it also bounds recursion depth in libcore's sort), loops deepened individually
 fam('c13_disjoint_tok', 'g_misc', [1, 2, 3], [4, 5])
 fam('c15_clone c15_set_clone', 'g_misc', [0, 1, 2, 3], [4, 5], dprofiles=('rel', 'dbg'))
 fam('c15_zst', 'g_misc', [1, 2, 3], [])   # zero-sized, never-equal keys
@@ -223,12 +223,12 @@ fam('c01u_ops', 'g_map', [4, 6, 8], [10, 12])
 fam('c07u_ops', 'g_set', [4, 6, 8], [10, 12])
 fam('c01w_ops', 'g_map', [(18, 17), (18, 16)], [], unwind=lambda c: c[0] + 2)
 fam('c07w_ops', 'g_set', [(18, 17), (18, 16)], [], unwind=lambda c: c[0] + 2)
-fam('c01_lookup_unsized', 'g_map', [1, 2], [3], unwind=lambda c: 6)
+fam('c01_lookup_unsized', 'g_map', [1, 2], [], unwind=lambda c: 6)
 fam('c01_hist', 'g_map', [(2, 2)], [(2, 3), (3, 3), (3, 4)], unwind=lambda c: c[0] + 2)
 
 # second/third parameter W selects the rendering ({} / {:?} / {:#?}) or the iterator kind: one per obligation
 fam('c19_nested', 'g_fmt', [(1, 1), (1, 2)], [(2, 1), (2, 2)], lto=True, unwind=lambda c: 8)   # N=2: 4-5 min each
-fam('c19_long', 'g_fmt', [(1, w) for w in range(5)], [(2, w) for w in range(5)], lto=True, unwind=lambda c: 8)
+fam('c19_long', 'g_fmt', [(1, w) for w in range(5)], [], lto=True, unwind=lambda c: 8)   # N = 2 (two long pieces): the deepening queries need 9-11 GB -> not registered
 fam('c06_fmt_specs', 'g_fmt', [(1, w) for w in range(5)], [(2, w) for w in range(5)], lto=True, unwind=lambda c: 8)
 fam('c19_map c19_set', 'g_fmt', [(n, w) for n in (0, 1, 2) for w in (0, 1, 2)] + [(1, 3), (2, 3)], [(3, w) for w in (0, 1, 2, 3)], lto=True, unwind=lambda c: 8)   # w: 0 {} 1 {:?} 2 {:#?} 3 {:#}
 fam('c19_map_iters', 'g_fmt', [(1, w) for w in range(9)] + [(2, 5)], [(n, w) for n in (2, 3) for w in range(9) if (n, w) != (2, 5)], lto=True, unwind=lambda c: 8)
